@@ -8,6 +8,7 @@ pub mod c14;
 pub mod c17;
 pub mod c18;
 pub mod c19;
+pub mod c20;
 pub mod common;
 pub mod hist;
 pub mod histchecks;
@@ -32,6 +33,7 @@ pub fn by_id(id: &str) -> Option<Box<dyn Check>> {
         "C12" => Some(Box::new(c12::C12)),
         "C13" => Some(Box::new(c13::C13)),
         "C14" => Some(Box::new(c14::C14)),
+        "C20" => Some(Box::new(c20::C20)),
         "C10" => Some(Box::new(c10::C10)),
         "C11" => Some(Box::new(histchecks::HistCheck { prop: "C11" })),
         "C08" => Some(Box::new(histchecks::HistCheck { prop: "C08" })),
